@@ -31,3 +31,6 @@ use internal_events::*;
 use script_helpers::*;
 #[cfg(nextest_verif)]
 pub use script_helpers::verif_script_helpers;
+
+#[cfg(nextest_verif)]
+pub use executor::verif_executor;
